@@ -77,6 +77,27 @@ func deRefPointers(t reflect.Type) reflect.Type {
 	return t
 }
 
+var (
+	serializableJSONType   = reflect.TypeOf((*SerializableJSON)(nil)).Elem()
+	deserializableJSONType = reflect.TypeOf((*DeserializableJSON)(nil)).Elem()
+)
+
+// hasJSONCodec returns whether the map form of the type is written or read by the type itself (SerializableJSON,
+// DeserializableJSON) at one of its pointer levels: the keys of such a map form are not known to serix.
+func hasJSONCodec(t reflect.Type) bool {
+	for {
+		if t.Implements(serializableJSONType) || t.Implements(deserializableJSONType) {
+			return true
+		}
+		if t.Kind() != reflect.Ptr {
+			pointerType := reflect.PointerTo(t)
+
+			return pointerType.Implements(serializableJSONType) || pointerType.Implements(deserializableJSONType)
+		}
+		t = t.Elem()
+	}
+}
+
 func checkDecodeDestination(obj any, value reflect.Value) error {
 	if !value.IsValid() {
 		return ierrors.New("invalid value for destination")
